@@ -2,9 +2,9 @@ SPECIFICATION Spec
 CONSTANTS
   MaxLen = 4
   Modes = {TRUE, FALSE}
-  JobIdOps = {"%1", "%2", "%3", "%+", "%-", "%", "%?f2", "%hold"}
+  JobIdOps = {"%1", "%2", "%3", "%+", "%-", "%?f2", "%hold"}
   PidOps = {"$p1", "$p2", "$p3", "9999"}
-  Sigs = {"KILL", "HUP", "TSTP", "STOP", "CONT"}
+  Sigs = {"KILL", "HUP", "TSTP", "CONT"}
   JobsOpts = {"", "-l", "-p"}
   KillLNums = {}
   FgSlots = {}
